@@ -27,8 +27,11 @@ def build(env, per_cell):
                 gen.add_keys(s, g, kem, "kS")
                 gen.add_keys(s, g, kem, "kX")
                 psk, pskid = g.rbytes(rnd.choice([1, 32, 100])), g.rbytes(rnd.choice([1, 9]))
+                if j == per_cell - 1 and (kdf + aead) % 2 == 1:
+                    psk = pskid = "-"  # the empty bundle is accepted by the composed calls; single-shot must agree
+                mism_pair = rnd.random() < 0.25 and mode in (2, 3)
                 pa = dict(psk=psk, pskid=pskid) if mode in (1, 3) else {}
-                sa = dict(sks="$kS.sk", pks="$kS.pk", **pa) if mode in (2, 3) else dict(pa)
+                sa = dict(sks="$kS.sk", pks="$kX.pk" if mism_pair else "$kS.pk", **pa) if mode in (2, 3) else dict(pa)
                 ra = dict(pks="$kS.pk", **pa) if mode in (2, 3) else dict(pa)
                 info = g.blob(gen.LEN_SMALL, maxrand=100)
                 rng = g.rbytes(nsk)
@@ -182,6 +185,8 @@ def monitor(sess, extra):
             va = a.outcome()
             if a.ok() and b.ok():
                 va, vb = a.ret.get("pt"), b.ret.get("pt")
+            elif va == vb and "buf" in a.ret and "buf" in b.ret and a.ret["buf"] != b.ret["buf"]:
+                va, vb = "buffer after failure " + a.ret["buf"][:40], "buffer after failure " + b.ret["buf"][:40]
             if va != vb:
                 r.violation("C14:ss_open:%s" % re.sub(r"_\d+$", "", path), "single_shot_open%s differs from setup_receiver + open (%s path): %s vs %s" % (
                     "_in_place_detached" if a.args.get("api") == "inplace" else "", path, _short(va), _short(vb)), sess, a)
